@@ -15,6 +15,7 @@ RULE = ("a table option -> (argv fragment, probe on the produced matplotlib figu
 RULE += " " + 'Figure kind std5 has 5 lines with style lists of 2, 3 and 4 entries: each list repeats by its own length.'
 RULE += " " + 'Figure kinds stdgap (a lead time without valid cases: annotation contents), qq (-sp/-xlim/-ylim: the ideal diagonal covers the visible diagonal), std1 (one-point axis: the perfect-score line has positive length).'
 RULE += " " + 'Rounds 9-10: -leg on map panel titles; figure kind tsens (time series of ensemble inputs with -q: -lw/-lc/-ls on forecast and quantile lines).'
+RULE += " " + 'Rounds 11-12: line options on both panels of igncontrib; -ms on map panels.'
 ASSUMPTIONS = ["figures are inspected through matplotlib's object model after canvas.draw(), not pixel by pixel",
                "cartopy is absent: maps use the plain-axes path"]
 REQUIRED_COUNTERS = ["figures", "probes", "single_option_runs", "subset_runs", "file_format_checks"]
